@@ -102,6 +102,9 @@ fn c16(toks: &[&str]) -> String {
         return "SKIP non-finite-coordinates".into();
     }
     let nat = fresh(req.mode, &req.pts, None);
+    if nat.path().iter().any(|p| !(p.x.is_finite() && p.y.is_finite())) {
+        return "FAIL nonfinite-natural-path".into();
+    }
     if let Err(e) = check_lengths_basic("natural", &nat) {
         return format!("FAIL {e}");
     }
@@ -408,7 +411,7 @@ fn c17(toks: &[&str]) -> String {
     let c = fresh(req.mode, &req.pts, None);
     let path: Vec<V> = c.path().iter().map(|p| v(*p)).collect();
     if path.iter().any(|p| !(p.0.is_finite() && p.1.is_finite())) {
-        return "FAIL non-finite path vertex".into();
+        return "FAIL nonfinite-natural-path".into();
     }
     let scale = scale_of(c.path(), &req.pts);
     let slack = 4e-5 * scale + 2e-3;
@@ -587,7 +590,12 @@ fn c19(toks: &[&str]) -> String {
         return if c.position_at(0.3) == Pos::default() { "OK empty".into() } else { "FAIL empty path".into() };
     }
     if path.iter().any(|p| !(p.x.is_finite() && p.y.is_finite())) {
-        return "FAIL nonfinite-path-point".into();
+        let nat = fresh(req.mode, &req.pts, None);
+        return if nat.path().iter().any(|p| !(p.x.is_finite() && p.y.is_finite())) {
+            "FAIL nonfinite-natural-path".into()
+        } else {
+            "FAIL nonfinite-path-point".into()
+        };
     }
     let dist = c.dist();
     if !dist.is_finite() {
@@ -598,7 +606,9 @@ fn c19(toks: &[&str]) -> String {
     let first = path[0];
     let last = path[path.len() - 1];
     let p0 = c.position_at(0.0);
-    if p0 != first {
+    // within float slack, not bit-exact: the surplus of an osu!-mode Catmull simplification is booked into lengths[1]
+    // and can be negative by a rounding error (e.g. -4.8e-7), in which case the search interpolates one ulp away
+    if !(norm(sub(v(p0), v(first))) <= slack) {
         return format!("FAIL position_at(0) = {p0} is not the first point {first}");
     }
     let p1 = c.position_at(1.0);
